@@ -32,6 +32,9 @@ pub fn run_twin(tr: &mut Trace, run: u64, seed: u64, noinject: bool) -> u64 {
     let latency = *r0.pick(&[0u64, 10, 60]);
     let p_drop = *r0.pick(&[0u64, 0, 10, 30]);
     let inj_kind_bias = r0.below(4);
+    // acknowledgement frames overtake one another in some runs (so that a group arrives after a later one has been
+    // processed: the situation in which a merged repeat, see below, can be built)
+    let ack_jitter = *r0.pick(&[20u64, 20, 120, 300]);
     tr.line(json!({"ev": "Reset", "run": run, "seed": seed as i64 & 0x3FFFFFFF, "driver": "hc-twin", "profile": "twin", "cfg": {"pw": pw, "fw": fw}, "latency": latency, "cadence": cadence}));
     for twin in 0..2u32 {
         let mut r = Rng::new(seed ^ 0xABCD);           // scenario choices: identical in both twins
@@ -41,6 +44,8 @@ pub fn run_twin(tr: &mut Trace, run: u64, seed: u64, noinject: bool) -> u64 {
         let mut p = Pair::new(cfg.clone());
         p.log_probe = false;
         let mut acks_seen: Vec<Vec<u8>> = Vec::new();   // genuine ack frames delivered to a
+        let mut sent_nonce: std::collections::HashMap<u32, bool> = std::collections::HashMap::new();   // frame id -> nonce bit of a's data frames
+        let mut acked_ids: std::collections::HashSet<u32> = std::collections::HashSet::new();         // frame ids a genuine ack delivered to a has claimed
         let mut delivered: u64 = 0;
         let mut due_fix: Vec<(u64, usize, u64, Box<[u8]>)> = Vec::new();
         for k in 0..rounds {
@@ -64,9 +69,12 @@ pub fn run_twin(tr: &mut Trace, run: u64, seed: u64, noinject: bool) -> u64 {
                         fnv(&mut h, &bytes);
                         nframes += 1;
                         nbytes += bytes.len();
+                        if let Some(uv::Frame::DataFrame(df)) = uv::Frame::read(&bytes) {
+                            sent_nonce.insert(df.sequence_id, df.nonce);
+                        }
                     }
                     let dropped = r.chance(p_drop, 100);
-                    let jitter = r.below(20);
+                    let jitter = r.below(if e == 1 { ack_jitter } else { 20 });
                     if !dropped {
                         due_fix.push((now + latency + jitter, e, idx, bytes));
                     }
@@ -80,14 +88,64 @@ pub fn run_twin(tr: &mut Trace, run: u64, seed: u64, noinject: bool) -> u64 {
                 due_fix = rest;
                 ready.sort_by_key(|f| (f.0, f.2));
                 for f in ready.into_iter() {
+                    let mut handed: Vec<u8> = f.3.to_vec();
                     if e == 0 {
-                        if let Some(uv::Frame::AckFrame(_)) = uv::Frame::read(&f.3) {
+                        if let Some(uv::Frame::AckFrame(a)) = uv::Frame::read(&f.3) {
                             if acks_seen.len() < 256 {
                                 acks_seen.push(f.3.to_vec());
                             }
+                            // twin 1: a genuine group is handed over with the acknowledgement of an already acknowledged frame
+                            // merged into it (one more bit set, nonce parity adjusted).  The merged part repeats an earlier
+                            // acknowledgement and must have no effect: the sender has to end up exactly as with the genuine group.
+                            let aug = ri.chance(30, 100);
+                            if twin == 1 && aug && !noinject && std::env::var("UVH_TWIN_NOINJECT").is_err() {
+                                if let Some(hc) = p.ep[0].hc.as_ref() {
+                                    let sn = hc.verif_snapshot();
+                                    let mut a2 = a.clone();
+                                    let mut changed = false;
+                                    for g in a2.frame_acks.iter_mut() {
+                                        if g.bitfield == 0 {
+                                            continue;
+                                        }
+                                        // candidates: already acknowledged ids within the group's 32-id span, not yet claimed by it,
+                                        // such that the whole span up to them is still in the sender's log
+                                        let in_log = |id: u32| id.wrapping_sub(sn.f_log_base) < sn.f_next.wrapping_sub(sn.f_log_base);
+                                        let cands: Vec<u32> = (1..32u32).filter(|i| g.bitfield & (1 << i) == 0)
+                                            .filter(|i| { let id = g.base_id.wrapping_add(*i); acked_ids.contains(&id) && sent_nonce.contains_key(&id) && (0..=*i).all(|j| in_log(g.base_id.wrapping_add(j))) })
+                                            .collect();
+                                        if !cands.is_empty() {
+                                            let i = *ri.pick(&cands);
+                                            g.bitfield |= 1 << i;
+                                            g.nonce ^= sent_nonce[&g.base_id.wrapping_add(i)];
+                                            changed = true;
+                                        }
+                                    }
+                                    if changed {
+                                        handed = uv::Frame::AckFrame(a2).write().to_vec();
+                                        injected_total += 1;
+                                        tr.line(json!({"ev": "Inject", "twin": 1, "k": k, "kind": "merged-repeat", "len": handed.len()}));
+                                    }
+                                }
+                            }
+                            // what the sender will accept of the genuine frame: groups whose whole span is in its frame log
+                            // (the nonce is genuine); only those ids count as acknowledged from now on
+                            if let Some(hc) = p.ep[0].hc.as_ref() {
+                                let sn = hc.verif_snapshot();
+                                let in_log = |id: u32| id.wrapping_sub(sn.f_log_base) < sn.f_next.wrapping_sub(sn.f_log_base);
+                                for g in a.frame_acks.iter() {
+                                    let size = 32 - g.bitfield.leading_zeros();
+                                    if size > 0 && (0..size).all(|j| in_log(g.base_id.wrapping_add(j))) {
+                                        for i in 0..size {
+                                            if g.bitfield & (1 << i) != 0 {
+                                                acked_ids.insert(g.base_id.wrapping_add(i));
+                                            }
+                                        }
+                                    }
+                                }
+                            }
                         }
                     }
-                    p.handle_bytes(&mut null, e, &f.3, json!({}));
+                    p.handle_bytes(&mut null, e, &handed, json!({}));
                 }
                 // twin 1: extra acknowledgement frames for the sender
                 if twin == 1 && e == 0 && !acks_seen.is_empty() && ri.chance(25, 100) && std::env::var("UVH_TWIN_NOINJECT").is_err() {
